@@ -104,6 +104,27 @@ def has_nested_set(obj, top=True) -> bool:
     return any(has_nested_set(c, False) for _, c in kids)
 
 
+def holds_raised_throw_argument(obj, depth=0) -> bool:
+    """True if the value contains a redun.throw(error) expression whose error carries the
+    redun_traceback attribute the scheduler attaches to errors it has seen raised."""
+    from redun.expression import Expression, TaskExpression
+
+    if depth > 12:
+        return False
+    if isinstance(obj, Expression):
+        d = obj.__dict__
+        args, kwargs = d.get("args") or (), d.get("kwargs") or {}
+        if isinstance(obj, TaskExpression) and d.get("task_name") == "redun.throw" and args \
+                and isinstance(args[0], BaseException) and "redun_traceback" in getattr(args[0], "__dict__", {}):
+            return True
+        return any(holds_raised_throw_argument(a, depth + 1) for a in list(args) + list(kwargs.values()))
+    if isinstance(obj, dict):
+        return any(holds_raised_throw_argument(a, depth + 1) for a in obj.values())
+    if isinstance(obj, (list, tuple, set, frozenset)):
+        return any(holds_raised_throw_argument(a, depth + 1) for a in obj)
+    return False
+
+
 def audit(case, backend, runs) -> dict:
     from redun.backends.db import Argument, CallEdge, CallNode, Execution, Job, Tag, Value
     from redun.hashing import hash_struct
@@ -190,6 +211,12 @@ def audit(case, backend, runs) -> dict:
         if node.task_name in ("vf.node", "vf.elem", "vf.dnode", "vf.ident") and not noprov_involved:
             want = hash_struct(["TaskArguments", [h for _, h in pos], kw])
             if want != node.args_hash:
+                held = [backend.get_value(a.value_hash)[0] for a in arows]
+                if any(has_nested_set(x) for x in held):
+                    # a container holding a set hashes by set iteration order, which changes when
+                    # the set is rebuilt between the two hashings: C16's (known) finding
+                    stats["skipped_nested_set"] = stats.get("skipped_nested_set", 0) + 1
+                    continue
                 raise Violation("args-hash-mismatch", f"call node {node.task_name} {ch[:8]}: args_hash is not the hash of its "
                                 f"{len(arows)} recorded arguments", case)
         # args hash equals the hash of the recorded arguments
@@ -208,6 +235,11 @@ def audit(case, backend, runs) -> dict:
             # that is C16's (known) finding, not a property of the recording
             stats["skipped_nested_set"] = stats.get("skipped_nested_set", 0) + 1
             continue
+        if h != v.value_hash and holds_raised_throw_argument(obj):
+            raise Violation("value-hash-mismatch:throw-argument-mutated",
+                            f"value row {v.value_hash[:8]} ({v.type}) deserialises to {obj!r:.80} with hash {h[:8]}: it holds a "
+                            f"redun.throw(error) expression whose error object was raised in-process and then given a "
+                            f"redun_traceback attribute by the scheduler, after the expression's hash had been taken", case)
         if h != v.value_hash:
             raise Violation("value-hash-mismatch", f"value row {v.value_hash[:8]} ({v.type}) deserialises to {obj!r:.80} with hash {h[:8]}", case)
     # --- tags from apply_tags
